@@ -25,6 +25,8 @@ TOLERANCES = {"frame": "exact (values are copied)", "mape-naive": "1e-12 relativ
 _utils = loader.module("timeseries.utils")
 _metrics = loader.module("timeseries.metrics")
 _base = loader.module("timeseries.base")
+_dummies = loader.module("timeseries.dummies")
+_prep = loader.module("timeseries.preprocessing")
 
 
 def _model(past, delay2):
@@ -56,7 +58,18 @@ def check_frame(case):
         idx = None if cont == "series" else np.argsort(np.argsort(-np.arange(n) * 7 % max(n, 1) + np.arange(n) / (n + 1.0)))
         yin = pandas.Series(y, index=idx)
         win = None if w is None else pandas.Series(w, index=idx)
-    nx, ny, nw = _utils.build_ts_X_y(_model(past, delay2), X, yin, win, same_rows=same_rows)
+    model = _model(past, delay2)
+    if case.get("prefit"):
+        # the framing object was used before: a regressor with a differencing preprocessing, already fitted on another series.  The table is
+        # a function of (past, delay1, delay2) and of the series handed in; what the object learnt earlier does not move any slice
+        model = _dummies.DummyTimeSeriesRegressor(past=past, delay1=1, delay2=delay2, preprocessing=_prep.TimeSeriesDifference(1))
+        warm = np.arange(past + delay2 + 6, dtype=np.float64) * 1.5
+        try:
+            model.fit(None, warm)
+        except Exception:  # noqa: BLE001 - a configuration the regressor itself cannot be fitted with: plain framing object instead
+            model = _model(past, delay2)
+        facts["prefit"] = hasattr(model, "preprocessing_")
+    nx, ny, nw = _utils.build_ts_X_y(model, X, yin, win, same_rows=same_rows)
     nx, ny = np.asarray(nx), np.asarray(ny)
     nw = None if nw is None else np.asarray(nw)
 
@@ -172,7 +185,7 @@ def _value_cases(draw, tier="quick"):
         X = [[c[t] for c in cols] for t in range(n)]
         xdtype = "int"
     return dict(past=past, delay2=delay2, same_rows=draw(st.booleans()), y=y, X=X, w=w, xdtype=xdtype,
-                dtype=draw(st.sampled_from(["float64", "float32"])), container=draw(st.sampled_from(["array", "array", "series", "series-permuted"])))
+                prefit=draw(st.integers(0, 3)) == 0, dtype=draw(st.sampled_from(["float64", "float32"])), container=draw(st.sampled_from(["array", "array", "series", "series-permuted"])))
 
 
 # ------------------------------------------------------------------ ts_mape
